@@ -460,16 +460,8 @@ func Lossless(in []byte, used int, b mp4.Box, decode func([]byte) (mp4.Box, int,
 			fmt.Sprintf("%s: slice of %d bytes (= announced box size), decoder consumed %d and accepted", pathName, len(in), used)})
 		return
 	}
-	cmpIn := in
-	// listed normalisation: a large-size header of a non-mdat box is written back compact
-	if len(cmpIn) >= 16 && binary.BigEndian.Uint32(cmpIn) == 1 && string(cmpIn[4:8]) != "mdat" &&
-		(len(out) < 8 || binary.BigEndian.Uint32(out) != 1) {
-		c := make([]byte, 0, len(cmpIn)-8)
-		c = append(c, U32(uint32(len(cmpIn)-8))...)
-		c = append(c, cmpIn[4:8]...)
-		c = append(c, cmpIn[16:]...)
-		cmpIn = c
-	}
+	// listed normalisation: a large-size header of a registered non-mdat box is written back compact
+	cmpIn := CompactLarge(in)
 	if !bytes.Equal(out, cmpIn) {
 		mask := dc.Mask(cmpIn)
 		pos := MaskedDiff(cmpIn, out, mask)
@@ -482,7 +474,9 @@ func Lossless(in []byte, used int, b mp4.Box, decode func([]byte) (mp4.Box, int,
 				inNode = n
 			}
 			class := "same-length-bytes-differ"
-			if len(out) == len(cmpIn) && inNode != nil && pos < inNode.Off+4 {
+			if len(out) == len(cmpIn) && pos < 4 {
+				class, site = "header-size-ignored", generic(top)
+			} else if len(out) == len(cmpIn) && inNode != nil && pos < inNode.Off+4 {
 				// only the size field of a box differs: the decoder did not hold the box to its announced size
 				class, site = "header-size-ignored", generic(site)
 			}
@@ -504,7 +498,11 @@ func Lossless(in []byte, used int, b mp4.Box, decode func([]byte) (mp4.Box, int,
 					}
 				}
 			}
-			_ = inNode
+			if co, isCont := childOffset[site]; !wellFormed && isCont && co == 0 && inNode != nil && len(out) == len(cmpIn) {
+				// a difference inside a pure container that the scanner cannot attribute to a child: a child header
+				// (size field) that the decoder did not hold the child to
+				class, site = "header-size-ignored", "leaf-decoders"
+			}
 			if !wellFormed && site != "leaf-decoders" {
 				class = "malformed-accepted-not-reproduced"
 			}
@@ -581,6 +579,56 @@ func firstSizeDiff(a, b []*Node) string {
 		}
 	}
 	return ""
+}
+
+// Registered is set by the harness to the registered box types (a large-size header of an unregistered
+// type is kept by UnknownBox, all others except mdat are written back compact).
+var Registered = map[string]bool{}
+
+// CompactLarge rewrites in with every large-size header of a registered non-mdat box replaced by a compact
+// one (sizes of the box and of its ancestors adjusted), using the scanner's view of in.
+func CompactLarge(in []byte) []byte {
+	if !bytes.Contains(in, []byte{0, 0, 0, 1}) {
+		return in
+	}
+	nodes, ok := Scan(in, 0, len(in), 0)
+	if !ok || len(nodes) != 1 {
+		return in
+	}
+	any := false
+	nodes[0].Walk(func(n *Node) {
+		if n.HdrLen == 16 {
+			any = true
+		}
+	})
+	if !any {
+		return in
+	}
+	var rebuild func(n *Node) []byte
+	rebuild = func(n *Node) []byte {
+		compact := n.HdrLen == 16 && n.Type != "mdat" && Registered[n.Type]
+		var o []byte
+		if compact {
+			o = append(o, 0, 0, 0, 0)
+			o = append(o, in[n.Off+4:n.Off+8]...)
+		} else {
+			o = append(o, in[n.Off:n.Off+n.HdrLen]...)
+		}
+		pos := n.Off + n.HdrLen
+		for _, c := range n.Children {
+			o = append(o, in[pos:c.Off]...)
+			o = append(o, rebuild(c)...)
+			pos = c.Off + c.Size
+		}
+		o = append(o, in[pos:n.Off+n.Size]...)
+		if compact || n.HdrLen == 8 {
+			binary.BigEndian.PutUint32(o, uint32(len(o)))
+		} else {
+			binary.BigEndian.PutUint64(o[8:], uint64(len(o)))
+		}
+		return o
+	}
+	return rebuild(nodes[0])
 }
 
 // ---------------------------------------------------------------- mutations
